@@ -238,6 +238,7 @@ pub fn run(ctx: &mut Ctx) {
         let klen = match i % 8 {
             0 => 1,
             1 => 128,
+            5 if i % 16 == 5 => [255usize, 256, 8160, 8161, 8193, 70_000, 2_100_000][((i / 16) % 7) as usize],
             2 => 32,
             3 => 33,
             _ => p.range(8, 128),
